@@ -15,7 +15,7 @@ RULE = ('every single-field corruption of a valid descriptor (file missing/empty
         'removed, retyped, or set to each invalid token class; numtype swapped for every type of different item size; '
         'data file length changed by every amount from -all to +2 items incl. non-multiples of the item size; shape '
         'changed to shapes of different product) x array kinds {1-D, N-D, empty first axis, values/ and indices/ of a '
-        'ragged array} x consumers {Array / RaggedArray constructor, darr.open, delete by path, truncate by path}; '
+        'ragged array} x consumers {Array / RaggedArray constructor and darr.open in modes r and r+, delete by path, truncate by path}; '
         'each (corruption, consumer) pair on a fresh copy; distinct by (kind, corruption, consumer); all are non-trivial')
 EXHAUSTIVE = True
 EXHAUSTIVE_PART = 'the enumerated single-field corruption catalogue x array kinds x consumers'
@@ -25,7 +25,7 @@ ANCHORS = ['array:Array._read_arraydescr', 'array:Array._check_arrayinfoconsiste
            'datadir:DataDir.read_jsondict', 'array:delete_array', 'array:truncate_array',
            'raggedarray:delete_raggedarray', 'raggedarray:truncate_raggedarray']
 REQUIRED = ['mon.open_rejected', 'mon.bypath_typeerror', 'mon.tree_unchanged']
-MIN_NONTRIVIAL = {'quick': 1500, 'thorough': 8000}
+MIN_NONTRIVIAL = {'quick': 8000, 'thorough': 40000}
 
 KINDS = ['1d', 'nd', 'empty', 'ragged-values', 'ragged-indices']
 SENTINEL = '__REMOVE__'
@@ -33,9 +33,9 @@ SENTINEL = '__REMOVE__'
 
 def base_params(tier):
     if tier == 'quick':
-        return [('int32', 'little')]
-    return [('int32', 'little'), ('float64', 'big'), ('uint8', 'little'), ('complex64', 'big'),
-            ('float16', 'little'), ('int64', 'big')]
+        return [('int32', 'little'), ('float64', 'big'), ('uint8', 'little'), ('complex64', 'big'),
+                ('float16', 'little'), ('int64', 'big')]
+    return [(t, b) for t in gens.T13 for b in gens.BO]
 
 
 def corruptions(numtype, shape):
@@ -55,7 +55,9 @@ def corruptions(numtype, shape):
                 continue  # [1] is a well-typed shape; covered by the shape-product corruptions
             cls = 'key-retyped' if key != 'darrversion' else 'darrversion-retyped'
             out.append((f'{key}:retyped-{tname}', cls, ('key', key, tv)))
-    for tok in ['int128', 'bool', '<i4', 'Int32', '', 'float', 'int', 'float128', 'str']:
+    for tok in ['int128', 'bool', '<i4', 'Int32', '', 'float', 'int', 'float128', 'str', 'f8', 'i4', 'i8', 'double',
+                'single', 'B', 'b', 'u1', 'complex', 'intp', 'half', 'f2', 'c8', 'c16', 'longlong', 'uint', '>i4', '=f8',
+                'short', 'e', 'd', 'q', 'object', 'V4', 'S4', 'float_', 'Float64']:
         out.append((f'numtype:token-{tok!r}', 'invalid-token', ('key', 'numtype', tok)))
     for tok in ['middle', 'Little', '<', '', 'native', 'LITTLE', '=']:
         out.append((f'byteorder:token-{tok!r}', 'invalid-token', ('key', 'byteorder', tok)))
@@ -123,8 +125,8 @@ def catalogue(kind, nt, bo):
 
 def consumers(kind):
     if kind.startswith('ragged'):
-        return ['RaggedArray', 'open', 'delete', 'truncate']
-    return ['Array', 'open', 'delete', 'truncate']
+        return ['RaggedArray', 'RaggedArray:r+', 'open', 'open:r+', 'delete', 'truncate']
+    return ['Array', 'Array:r+', 'open', 'open:r+', 'delete', 'truncate']
 
 
 def cases(tier, seed):
@@ -228,12 +230,12 @@ def run_case(case, env):
         ragged = kind.startswith('ragged')
         raised = None
         try:
-            if cons == 'Array':
-                obj = D.Array(work)
-            elif cons == 'RaggedArray':
-                obj = D.RaggedArray(work)
-            elif cons == 'open':
-                obj = D.open(work)
+            if cons.startswith('Array'):
+                obj = D.Array(work, accessmode='r+' if cons.endswith('r+') else 'r')
+            elif cons.startswith('RaggedArray'):
+                obj = D.RaggedArray(work, accessmode='r+' if cons.endswith('r+') else 'r')
+            elif cons.startswith('open'):
+                obj = D.open(work, accessmode='r+' if cons.endswith('r+') else 'r')
             elif cons == 'delete':
                 (D.delete_raggedarray if ragged else D.delete_array)(str(work))
             else:
@@ -242,7 +244,7 @@ def run_case(case, env):
             raised = e
         after = snapshot(work)
         tag = f'{kind}:{name}'
-        if cons in ('Array', 'RaggedArray', 'open'):
+        if cons.split(':')[0] in ('Array', 'RaggedArray', 'open'):
             res.count('mon.open_rejected')
             if raised is None:
                 what = ''
